@@ -52,6 +52,10 @@ LawEvent(e) ==
             ELSE LET c == CHOOSE x \in bad : \A z \in bad : <<x[3][2], x[3][1]>> = <<z[3][2], z[3][1]>> \/ x[3][2] < z[3][2] \/ (x[3][2] = z[3][2] /\ x[3][1] < z[3][1]) IN
                  Viol("C13", LawNames[i], l, [op |-> tr.op, k |-> tr.k, d |-> tr.d, mode |-> mk, n |-> Cardinality(bad),
                                                pA |-> c[2], pB |-> c[3], obsA |-> ObsA(c[2]), obsB |-> ObsB(c[3])])
+    \* the same move done through the API on document A (set_offset / drag with a preview offset / drag put back)
+    /\ IF "gM" \in DOMAIN e
+       THEN Check(e.gM = (IF e.exp = "B" THEN e.gB ELSE e.gA), "C13", "MoveThroughApi", l, [op |-> tr.op, k |-> tr.k, d |-> tr.d, route |-> e.route])
+       ELSE TRUE
     /\ BumpBy(11, Cardinality(claims))
     /\ BumpBy(12, 2 * Cardinality(P))
     /\ IF badA = {} THEN TRUE
